@@ -388,10 +388,13 @@ pub fn run(ctx: &Ctx) {
                     if EdwardsPoint::from(sa).compress().0 != a.pt.compress() {
                         bad.push("From<SubgroupPoint> for EdwardsPoint");
                     }
-                    let mut z = sa;
-                    zeroize::Zeroize::zeroize(&mut z);
-                    if enc(&z) != ed::ID.compress() {
-                        bad.push("zeroize");
+                    #[cfg(feature = "zeroize")]
+                    {
+                        let mut z = sa;
+                        zeroize::Zeroize::zeroize(&mut z);
+                        if enc(&z) != ed::ID.compress() {
+                            bad.push("zeroize");
+                        }
                     }
                     bad
                 });
